@@ -67,6 +67,24 @@ type ShapeOuterI struct {
 	U string `cbor:"51,keyasint" json:"u"`
 }
 
+// an implementation of the embedded interface that is held BY VALUE
+type ShapeInnerV struct {
+	X *int64 `cbor:"10,keyasint,omitempty" json:"x,omitempty"`
+	Y string `cbor:"11,keyasint" json:"y"`
+}
+
+func (ShapeInnerV) Foo() {}
+
+// JSON member names that differ only by case (and by Unicode case folding:
+// U+212A KELVIN SIGN folds to k)
+type ShapeFold struct {
+	HwVer   *string `cbor:"60,keyasint,omitempty" json:"hwver,omitempty"`
+	HwVerV2 *string `cbor:"61,keyasint,omitempty" json:"HWVER,omitempty"`
+	Serial  int64   `cbor:"62,keyasint" json:"serial"`
+	K       *int64  `cbor:"63,keyasint,omitempty" json:"k,omitempty"`
+	Kelvin  *int64  `cbor:"64,keyasint,omitempty" json:"\u212a,omitempty"`
+}
+
 type ShapeEmpty struct{}
 
 type ShapeAllOptional struct {
@@ -136,7 +154,16 @@ func (s *ShapeOuterI) fields() []fd {
 	if in, ok := s.ShapeEmb.(*ShapeInner); ok && in != nil {
 		r = append(r, in.fields()...)
 	}
+	if in, ok := s.ShapeEmb.(ShapeInnerV); ok {
+		r = append(r, fPtrInt(10, "x", true, in.X), fStr(11, "y", false, in.Y))
+	}
+	if in, ok := s.ShapeEmb.(*ShapeInnerV); ok && in != nil {
+		r = append(r, fPtrInt(10, "x", true, in.X), fStr(11, "y", false, in.Y))
+	}
 	return r
+}
+func (s *ShapeFold) fields() []fd {
+	return []fd{fPtrStr(60, "hwver", true, s.HwVer), fPtrStr(61, "HWVER", true, s.HwVerV2), fInt(62, "serial", false, s.Serial), fPtrInt(63, "k", true, s.K), fPtrInt(64, "\u212a", true, s.Kelvin)}
 }
 func (s *ShapeEmpty) fields() []fd { return nil }
 func (s *ShapeAllOptional) fields() []fd {
@@ -196,7 +223,15 @@ func drawInner(t *rapid.T, l string) ShapeInner {
 // drawShape returns the value, a function making a fresh destination, and the
 // shape's name.
 func drawShape(t *rapid.T) (shape, func() any, string) {
-	switch rapid.IntRange(0, 7).Draw(t, "shape") {
+	switch rapid.IntRange(0, 9).Draw(t, "shape") {
+	case 8:
+		// the embedded interface holds the implementation by value (only
+		// readable: the destination of a populate holds a pointer)
+		s := &ShapeOuterI{T: drawOptInt(t, "t"), ShapeEmb: ShapeInnerV{X: drawOptInt(t, "in.x"), Y: drawStr(t, "in.y")}, U: drawStr(t, "u")}
+		return s, func() any { return &ShapeOuterI{ShapeEmb: &ShapeInnerV{}} }, "embedded-iface-value"
+	case 9:
+		s := &ShapeFold{HwVer: drawOptStr(t, "hwver"), HwVerV2: drawOptStr(t, "HWVER"), Serial: drawInt(t, "serial"), K: drawOptInt(t, "k"), Kelvin: drawOptInt(t, "kelvin")}
+		return s, func() any { return &ShapeFold{} }, "case-fold-names"
 	case 0:
 		s := &ShapeFlat{A: drawOptInt(t, "a"), B: drawOptStr(t, "b"), C: drawOptBytes(t, "c"), D: drawInt(t, "d"), E: drawStr(t, "e"),
 			F: uint16(rapid.SampledFrom([]int{0, 0, 1, 255, 256, 65535}).Draw(t, "f")), G: drawOptBytes(t, "g"), Hidden: drawStr(t, "hidden")}
@@ -255,6 +290,9 @@ func stripHidden(v any) any {
 			ic := *in
 			ic.Skip = nil
 			c.ShapeEmb = &ic
+		}
+		if in, ok := s.ShapeEmb.(ShapeInnerV); ok {
+			c.ShapeEmb = &in // the populated destination holds a pointer
 		}
 		return &c
 	}
@@ -470,13 +508,25 @@ func c15CheckJSON(s shape, fresh func() any, plainComparable bool) string {
 		if err := encoding.PopulateStructFromJSON(b, fresh()); err == nil {
 			return fmt.Sprintf("JSON populate succeeds although the non-optional member %q is missing", f.name)
 		}
+		// ... also when a differently-cased spelling of the name is there
+		for _, variant := range []string{strings.ToUpper(f.name), strings.ToUpper(f.name[:1]) + f.name[1:]} {
+			if _, taken := doc[variant]; taken || variant == f.name {
+				continue
+			}
+			d2[variant] = doc[f.name]
+			b, _ := json.Marshal(d2)
+			if err := encoding.PopulateStructFromJSON(b, fresh()); err == nil {
+				return fmt.Sprintf("JSON populate succeeds although the non-optional member %q is missing (only %q is there)", f.name, variant)
+			}
+			delete(d2, variant)
+		}
 	}
 	return ""
 }
 
 func TestC15_Shapes(t *testing.T) {
-	st := NewStats("C15", "TestC15_Shapes", "rapid: eight hand-declared struct shapes following the claims convention (flat; one- and two-level embedded struct; embedded interface holding a struct pointer or nil; empty struct; all-optional struct) x random field values x random subsets of optional fields set. CBOR: output parsed by the independent reader must be ONE definite map whose entries equal, in declaration order, the hand-written union of outer+embedded fields honouring omitempty and '-'; populate(serialise(x)) == x; for shapes without embedding the decoded map equals the plain marshaller's; bytes stable; deleting any non-optional key or duplicating a key makes populate fail. JSON likewise (no duplicate clause). Non-trivial = has an embedded level, or is the empty/all-absent struct; distinct = shape + presence mask")
-	st.Require = []string{"flat", "embedded-1", "embedded-2", "embedded-iface", "embedded-iface-nil", "empty", "all-optional", "zero-entries"}
+	st := NewStats("C15", "TestC15_Shapes", "rapid: ten hand-declared struct shapes following the claims convention (flat; one- and two-level embedded struct; embedded interface holding a struct pointer, a struct by value, or nil; empty struct; all-optional struct; a struct whose JSON member names differ only by (Unicode) case) x random field values x random subsets of optional fields set. CBOR: output parsed by the independent reader must be ONE definite map whose entries equal, in declaration order, the hand-written union of outer+embedded fields honouring omitempty and '-'; populate(serialise(x)) == x; for shapes without embedding the decoded map equals the plain marshaller's; bytes stable; deleting any non-optional key or duplicating a key makes populate fail. JSON likewise (no duplicate clause; a differently-cased spelling of a missing non-optional member does not stand in for it). Non-trivial = has an embedded level, or is the empty/all-absent struct; distinct = shape + presence mask")
+	st.Require = []string{"flat", "embedded-1", "embedded-2", "embedded-iface", "embedded-iface-nil", "embedded-iface-value", "case-fold-names", "empty", "all-optional", "zero-entries"}
 	defer st.Flush(t)
 	rapid.Check(t, func(t *rapid.T) {
 		s, fresh, name := drawShape(t)
